@@ -4604,6 +4604,12 @@ func (a *Association) onRetransmissionTimeout(id int, nRtos uint) { //nolint:cyc
 	}
 
 	if id == timerT3RTX { //nolint:nestif
+		if a.t3RTX.expiryOutdated() {
+			// a SACK handled while this callback waited for the lock has stopped or
+			// restarted T3-rtx: what is outstanding now has not been timed by this expiry.
+			return
+		}
+
 		a.stats.incT3Timeouts()
 
 		// RFC 4960 sec 6.3.3
